@@ -188,6 +188,9 @@ func (vc *VC) addSpec(sf *SpecFile, pkg *packages.Package) error {
 		default:
 			fn, err := vc.resolveFunc(c.Name, pkg)
 			if err != nil {
+				if pkg == nil {
+					continue // assumed contract for a dependency that is not loaded for this property
+				}
 				return fmt.Errorf("%s:%d: %v", c.File, c.Line, err)
 			}
 			if _, dup := vc.contracts[fn]; dup {
